@@ -340,7 +340,7 @@ def validate(run, wd, models, timeout, counts=(), keylens=()):
     run.cov["traces_validated_against_impl"] += len(lines) - len(bad)
     if len(lines) >= 100:
         from cryptocommon import binding_selftest
-        binding_selftest(run, wd, "TraceC15", trace, timeout)
+        binding_selftest(run, wd, "TraceC15", trace, timeout, exclude=bad)
     return images, lines, parts
 
 
